@@ -136,3 +136,145 @@ Section BspProofs.
     - rewrite (Hd0 eq_refl), Hpc. unfold Lst. now rewrite firstn_all.
   Qed.
 End BspProofs.
+
+(* ------------------------------------------------------------------ *)
+(* Deadlock freedom: in every reachable state that is not finished some rank can take a step
+   that makes progress (a deposit or a pick-up); the progress measure is bounded, so every
+   fair execution finishes -- and then agrees with the lock-step run by [schedule_independent]. *)
+Section BspProgress.
+  Variables (S C : Type) (P : nat) (prog : list (phase S C)) (init : nat -> S).
+
+  Definition rank_measure (rs : rank_state S) : nat := 2 * pc rs + (if dep rs then 1 else 0).
+  Definition measure (a : astate S C) : nat := fold_right (fun rs m => rank_measure rs + m) 0 (ranks a).
+
+  (* board completeness: whatever a rank has deposited is on the board *)
+  Definition board_complete (a : astate S C) : Prop :=
+    forall r rs, nth_error (ranks a) r = Some rs ->
+      forall k, (k < pc rs \/ (k = pc rs /\ dep rs = true)) -> k < length prog -> lookup (brd a) k r <> None.
+
+  Definition Inv2 (a : astate S C) : Prop :=
+    length (ranks a) = P /\ board_complete a /\ (forall r rs, nth_error (ranks a) r = Some rs -> pc rs <= length prog).
+
+  Lemma measure_set_nth (l : list (rank_state S)) r rs rs' :
+    nth_error l r = Some rs ->
+    fold_right (fun x m => rank_measure x + m) 0 (set_nth r rs' l) + rank_measure rs =
+    fold_right (fun x m => rank_measure x + m) 0 l + rank_measure rs'.
+  Proof.
+    revert r; induction l as [|h t IH]; intros r H; destruct r; cbn in *; try discriminate.
+    - inversion H; subst. lia.
+    - specialize (IH _ H). lia.
+  Qed.
+
+  Lemma lookup_cons_other (b : board C) k r k' r' c :
+    lookup b k r <> None -> lookup ((k', r', c) :: b) k r <> None.
+  Proof. cbn. destruct (Nat.eqb k k' && Nat.eqb r r')%bool; [discriminate|auto]. Qed.
+
+  Lemma astep_inv2 a r : Inv2 a -> Inv2 (astep P prog a r).
+  Proof.
+    intros (Hlen & Hbc & Hpc). unfold astep.
+    destruct (nth_error (ranks a) r) as [rs|] eqn:En; [|exact (conj Hlen (conj Hbc Hpc))].
+    destruct (nth_error prog (pc rs)) as [p|] eqn:Ep; [|exact (conj Hlen (conj Hbc Hpc))].
+    assert (Hlt : r < length (ranks a)) by (apply nth_error_Some; congruence).
+    assert (Hpl : pc rs < length prog) by (apply nth_error_Some; congruence).
+    destruct (dep rs) eqn:Ed.
+    - destruct (collect (brd a) (pc rs) (seq 0 P)) as [cs|] eqn:Ec; [|exact (conj Hlen (conj Hbc Hpc))].
+      split; [cbn; now rewrite set_nth_length|]. split.
+      + intros r' rs' En' k Hk Hkl. cbn [ranks brd] in *.
+        destruct (Nat.eq_dec r r') as [<-|Hne].
+        * rewrite nth_error_set_nth_eq in En' by exact Hlt. inversion En'; subst rs'; clear En'. cbn [pc dep] in Hk.
+          apply (Hbc r rs En k); [|exact Hkl]. destruct Hk as [Hk|[_ Hk]]; [|discriminate].
+          destruct (Nat.eq_dec k (pc rs)); [right; auto|left; lia].
+        * rewrite nth_error_set_nth_neq in En' by exact Hne. now apply (Hbc r' rs' En' k).
+      + intros r' rs' En'. cbn [ranks] in En'.
+        destruct (Nat.eq_dec r r') as [<-|Hne].
+        * rewrite nth_error_set_nth_eq in En' by exact Hlt. inversion En'; subst rs'. cbn. lia.
+        * rewrite nth_error_set_nth_neq in En' by exact Hne. now apply Hpc with r'.
+    - destruct (local p r (rst rs)) as [s' c] eqn:El.
+      split; [cbn; now rewrite set_nth_length|]. split.
+      + intros r' rs' En' k Hk Hkl. cbn [ranks brd] in *.
+        destruct (Nat.eq_dec r r') as [<-|Hne].
+        * rewrite nth_error_set_nth_eq in En' by exact Hlt. inversion En'; subst rs'; clear En'. cbn [pc dep] in Hk.
+          destruct Hk as [Hk|[Hk _]].
+          -- apply lookup_cons_other. apply (Hbc r rs En k); [left; exact Hk|exact Hkl].
+          -- subst k. cbn. rewrite !Nat.eqb_refl. cbn. discriminate.
+        * rewrite nth_error_set_nth_neq in En' by exact Hne. apply lookup_cons_other. now apply (Hbc r' rs' En' k).
+      + intros r' rs' En'. cbn [ranks] in En'.
+        destruct (Nat.eq_dec r r') as [<-|Hne].
+        * rewrite nth_error_set_nth_eq in En' by exact Hlt. inversion En'; subst rs'. cbn. now apply Hpc with r.
+        * rewrite nth_error_set_nth_neq in En' by exact Hne. now apply Hpc with r'.
+  Qed.
+
+  Lemma ainit_inv2 : Inv2 (ainit (C:=C) P init).
+  Proof.
+    split; [cbn; now rewrite map_length, seq_length|]. split.
+    - intros r rs En k Hk _. apply (ainit_rank S C P init) in En. subst rs. cbn in Hk. destruct Hk as [Hk|[_ Hk]]; [lia|discriminate].
+    - intros r rs En. apply (ainit_rank S C P init) in En. subst rs. cbn. lia.
+  Qed.
+
+  (* a rank with the least progress *)
+  Lemma exists_min (l : list (rank_state S)) : l <> [] ->
+    exists r rs, nth_error l r = Some rs /\ forall r' rs', nth_error l r' = Some rs' -> rank_measure rs <= rank_measure rs'.
+  Proof.
+    induction l as [|h t IH]; [congruence|]. intros _. destruct t as [|h2 t2].
+    - exists 0, h. split; [reflexivity|]. intros [|r'] rs' H; cbn in H; [inversion H; lia|destruct r'; discriminate].
+    - destruct IH as (r & rs & Hn & Hmin); [discriminate|].
+      destruct (le_lt_dec (rank_measure h) (rank_measure rs)) as [Hle|Hgt].
+      + exists 0, h. split; [reflexivity|]. intros [|r'] rs' H; cbn in H; [inversion H; lia|]. specialize (Hmin _ _ H). lia.
+      + exists (Datatypes.S r), rs. split; [exact Hn|]. intros [|r'] rs' H; cbn in H; [inversion H; subst; lia|]. now apply Hmin with r'.
+  Qed.
+
+  Lemma collect_complete (b : board C) k rs :
+    (forall r, In r rs -> lookup b k r <> None) -> collect b k rs <> None.
+  Proof.
+    induction rs as [|r rs IH]; intros H; cbn; [discriminate|].
+    destruct (lookup b k r) eqn:El; [|exfalso; apply (H r (or_introl eq_refl)); exact El].
+    assert (Hc : collect b k rs <> None) by (apply IH; intros; apply H; now right).
+    destruct (collect b k rs); [discriminate|congruence].
+  Qed.
+
+  Theorem bsp_progress (a : astate S C) :
+    Inv2 a -> 1 <= P -> ~ finished prog a ->
+    exists r, r < P /\ measure (astep P prog a r) = Datatypes.S (measure a).
+  Proof.
+    intros (Hlen & Hbc & Hpc) HP Hnf.
+    assert (Hne : ranks a <> []) by (intros E; rewrite E in Hlen; cbn in Hlen; lia).
+    destruct (exists_min (ranks a) Hne) as (r & rs & En & Hmin).
+    assert (Hr : r < P) by (rewrite <- Hlen; apply nth_error_Some; congruence).
+    (* the least-advanced rank is not at the end, otherwise everybody is finished *)
+    assert (Hk : pc rs < length prog).
+    { destruct (le_lt_dec (length prog) (pc rs)) as [Hge|]; [|assumption]. exfalso. apply Hnf.
+      unfold finished. apply Forall_forall. intros rs' Hin. apply In_nth_error in Hin as (r' & En').
+      pose proof (Hmin _ _ En') as Hm. pose proof (Hpc _ _ En') as Hp'. pose proof (Hpc _ _ En) as Hp.
+      unfold rank_measure in Hm. destruct (dep rs), (dep rs'); lia. }
+    exists r. split; [exact Hr|]. unfold astep. rewrite En.
+    destruct (nth_error prog (pc rs)) as [p|] eqn:Ep; [|apply nth_error_None in Ep; lia].
+    destruct (dep rs) eqn:Ed.
+    - (* everybody has deposited for phase pc rs *)
+      destruct (collect (brd a) (pc rs) (seq 0 P)) as [cs|] eqn:Ec.
+      + unfold measure. cbn [ranks].
+        pose proof (measure_set_nth (ranks a) r rs (mkRank (Datatypes.S (pc rs)) (combine p cs r (rst rs)) false) En) as Hm.
+        set (A := fold_right _ 0 (set_nth _ _ _)) in *. set (B := fold_right _ 0 (ranks a)) in *.
+        unfold rank_measure in Hm. cbn [pc dep] in Hm. rewrite Ed in Hm. lia.
+      + exfalso. revert Ec. apply collect_complete. intros r' Hin. apply in_seq in Hin.
+        assert (Hr' : r' < length (ranks a)) by lia.
+        destruct (nth_error (ranks a) r') as [rs'|] eqn:En'; [|apply nth_error_None in En'; lia].
+        apply (Hbc r' rs' En' (pc rs)); [|exact Hk].
+        pose proof (Hmin _ _ En') as Hm. unfold rank_measure in Hm. rewrite Ed in Hm.
+        destruct (dep rs') eqn:Ed'; [|left; lia].
+        destruct (Nat.eq_dec (pc rs') (pc rs)); [right; auto|left; lia].
+    - destruct (local p r (rst rs)) as [s' c] eqn:El.
+      unfold measure. cbn [ranks].
+      pose proof (measure_set_nth (ranks a) r rs (mkRank (pc rs) s' true) En) as Hm.
+      set (A := fold_right _ 0 (set_nth _ _ _)) in *. set (B := fold_right _ 0 (ranks a)) in *.
+      unfold rank_measure in Hm. cbn [pc dep] in Hm. rewrite Ed in Hm. lia.
+  Qed.
+
+  Theorem bsp_deadlock_free (sched : list nat) :
+    1 <= P -> let a := arun P prog init sched in
+    ~ finished prog a -> exists r, r < P /\ measure (astep P prog a r) = Datatypes.S (measure a).
+  Proof.
+    intros HP a Hnf. apply bsp_progress; [|exact HP|exact Hnf].
+    unfold a, arun. clear a Hnf. generalize ainit_inv2. generalize (ainit (C:=C) P init) as a0.
+    induction sched as [|r s IH]; intros a0 Ha; cbn [fold_left]; [exact Ha|]. apply IH. now apply astep_inv2.
+  Qed.
+End BspProgress.
